@@ -131,6 +131,10 @@ func (r *Run) Violate(prop, rule, culprit, detail string) { r.S.Violate(prop, ru
 // Spawn starts a workload goroutine under a deterministic label.
 func (r *Run) Spawn(name string, f func()) *Task {
 	t := &Task{Name: name}
+	if r.S.Panicked() {
+		t.Done = true // nothing of the system runs after a panic
+		return t
+	}
 	r.tasks = append(r.tasks, t)
 	r.S.GoLabel("task:"+name, func() {
 		t.Start = r.S.Now()
@@ -161,6 +165,7 @@ const (
 	EndDone EndReason = iota
 	EndStepCap
 	EndHorizon
+	EndPanic // a goroutine of the system panicked: the run is over, the panic is the finding
 )
 
 // Drive runs the scheduler until done() holds at quiescence, the step cap is reached, or the
@@ -171,6 +176,9 @@ func (r *Run) Drive(done func() bool, horizon time.Duration, maxSteps int) EndRe
 		synctest.Wait()
 		if done() {
 			return EndDone
+		}
+		if r.S.Panicked() {
+			return EndPanic
 		}
 		if r.S.Steps()-startSteps >= maxSteps {
 			return EndStepCap
@@ -199,6 +207,9 @@ func (r *Run) Drive(done func() bool, horizon time.Duration, maxSteps int) EndRe
 func (r *Run) Settle(maxSteps int) (quiet bool) {
 	startSteps := r.S.Steps()
 	for r.S.Steps()-startSteps < maxSteps {
+		if r.S.Panicked() {
+			return true // judged by the panic itself
+		}
 		if r.S.Step(time.Hour) == simrt.Idle {
 			return true
 		}
